@@ -292,6 +292,7 @@ def c18(tier: str) -> int:
             except (KeyError, IndexError):
                 pass
         cases.append({'id': k, 'lex': L, 'defects': list(defs), 'selects': selects(rng, thorough),
+                      'cli': ([['E', 'W'], sorted(rng.sample(CODES, 3))] if (thorough or k % 6 == 0) else []),
                       'version': rng.choice(['1.0', '1.1', '1.3']) if 'dup_form_id' not in defs
                       and 'dup_frame_id' not in defs else '1.1'})
     add([])
